@@ -58,6 +58,7 @@ func (c *c05) Cases(tier string, seed int64) []core.Case {
 		cs = append(cs, core.MkCase(fmt.Sprintf("obstacle-%d", i), c05Params{r.Int63(), "obstacle"}))
 		if i < 2 || tier == "thorough" {
 			cs = append(cs, core.MkCase(fmt.Sprintf("illegal-slice-size-%d", i), c05Params{r.Int63(), "illegal-slice-size"}))
+			cs = append(cs, core.MkCase(fmt.Sprintf("refusable-input-%d", i), c05Params{r.Int63(), "refusable-input"}))
 		}
 		cs = append(cs, core.MkCase(fmt.Sprintf("unreadable-input-%d", i), c05Params{r.Int63(), "unreadable-input"}))
 		if i < 3 || tier == "thorough" && i < 20 {
@@ -81,6 +82,10 @@ func (c *c05) Run(cs core.Case) core.Result {
 	rng := rand.New(rand.NewSource(p.Seed))
 	if p.Kind == "illegal-slice-size" {
 		c.runIllegalSliceSize(r, rng)
+		return r.Done()
+	}
+	if p.Kind == "refusable-input" {
+		c.runRefusableInput(r, rng)
 		return r.Done()
 	}
 	var set scen.Set
@@ -475,4 +480,78 @@ func (c *c05) runIllegalSliceSize(r *core.R, rng *rand.Rand) {
 		r.Key("illegal-slice-size|%d", size)
 	}
 	r.Sample(map[string]interface{}{"kind": "illegal-slice-size", "sizes": "1,2,3,5,6,10,14,1002,2001,4098,-4,-6,2^31-2"})
+}
+
+// runRefusableInput: inputs this implementation may refuse (a name that is
+// not ASCII, an empty file among others). Either Create says so, or the set
+// it wrote is complete and correct like any other.
+func (c *c05) runRefusableInput(r *core.R, rng *rand.Rand) {
+	root, err := os.MkdirTemp("", "c05ref-")
+	if err != nil {
+		r.Inconclusive("tempdir: %v", err)
+		return
+	}
+	defer os.RemoveAll(root)
+	for vi, variant := range []string{"latin1-name", "utf8-name", "empty-file-first", "empty-file-last", "control-char-name"} {
+		dir := filepath.Join(root, fmt.Sprintf("v%d", vi))
+		os.MkdirAll(dir, 0755)
+		slice := 4 * (1 + rng.Intn(40))
+		var in []par2rw.InFile
+		names := []string{"plain-a.dat", "plain-b.dat", "plain-c.dat"}
+		switch variant {
+		case "latin1-name":
+			names[1] = "caf\xe9.dat"
+		case "utf8-name":
+			names[1] = "caf\u00e9 \u65e5\u672c.dat"
+		case "control-char-name":
+			names[1] = "tab\there.dat"
+		}
+		var paths []string
+		for i, n := range names {
+			data := scen.GenData(rng, "random", 1+rng.Intn(5*slice), slice)
+			if (variant == "empty-file-first" && i == 0) || (variant == "empty-file-last" && i == 2) {
+				data = []byte{}
+			}
+			if err := os.WriteFile(filepath.Join(dir, n), data, 0644); err != nil {
+				continue
+			}
+			in = append(in, par2rw.InFile{Name: n, Data: data})
+			paths = append(paths, filepath.Join(dir, n))
+		}
+		blocks := 1 + rng.Intn(4)
+		var cerr error
+		if pi := core.Protect(func() {
+			cerr = par2.Create(filepath.Join(dir, "ref.par2"), paths, par2.CreateOptions{SliceByteCount: slice, NumParityShards: blocks, NumGoroutines: 1 + rng.Intn(3)})
+		}); pi != nil {
+			r.Violate("create-panic|"+pi.Frame, "Create with %s: %s", variant, pi.Msg)
+			continue
+		}
+		r.Count("refusable_input_creates", 1)
+		r.SetAdd("refusable_input_outcomes", fmt.Sprintf("%s refused=%v", variant, cerr != nil))
+		var created []par2rw.CreatedFile
+		ents, _ := os.ReadDir(dir)
+		for _, de := range ents {
+			if strings.HasPrefix(de.Name(), "ref.") {
+				b, _ := os.ReadFile(filepath.Join(dir, de.Name()))
+				created = append(created, par2rw.CreatedFile{Name: de.Name(), Data: b})
+			}
+		}
+		if cerr == nil {
+			problems, _ := par2rw.ValidateCreated(slice, in, blocks, "ref.par2", created, true)
+			for i, pr := range problems {
+				if i >= 3 {
+					break
+				}
+				r.Violate("nonconformant|"+classify(pr), "Create accepted %s (slice %d, %d blocks) and wrote: %s", variant, slice, blocks, pr)
+			}
+		} else {
+			for _, cf := range created {
+				if _, perr := par2rw.ParseStrict(cf.Data); perr != nil {
+					r.Violate("nonconformant|packet stream", "Create refused %s (%v) but left %s, which is not a packet stream: %v", variant, cerr, cf.Name, perr)
+				}
+			}
+		}
+		r.Key("refusable-input|%s|refused=%v", variant, cerr != nil)
+	}
+	r.Sample(map[string]interface{}{"kind": "refusable-input", "variants": "latin1-name, utf8-name, empty-file-first, empty-file-last, control-char-name"})
 }
